@@ -83,6 +83,7 @@ func runC16(c *ShardCtx) {
 					o.TickCap = 5000
 					obs := b.Run(in, &o, nil)
 					c.Res.Evaluations++
+					c.ConfSample(60013, 2, text, gc.gen, b, in, o, nil, obs)
 					var diffs []string
 					exhausted := runaway || cnt > n
 					hasBudgetErr := obs.Panic == "maxexpr"
